@@ -14,6 +14,8 @@ property C14:
 Expression trees (association, `std::fma` in the interpolator) follow the C++ exactly so that
 the `Float` instance is bit-identical.  Things `Num` does not provide are explicit arguments:
   * `toIdx : α → Nat`   — `static_cast<size_type>(double)` (truncation; `Nat.floor` at ℝ);
+  * constants (`min_step`, `dtrl`, `small_step_alpha`, `sqrt_tol`, `no_scaling`) come from
+    Generated/CalcConsts.lean, regenerated from the source text by tools/gen/calc.py;
   * `expm1`, `log1p`    — libm functions missing from Lean's `Float` API: at `Float` the driver
                           passes the libm result given on the op line (oracle input), at ℝ the
                           theorems assume `expm1 x = exp x − 1`, `log1p x = log (1 + x)`.
@@ -23,6 +25,7 @@ check: `XsCalculator::get` would read whatever follows).
 No Mathlib.
 -/
 import CelerVerif.Num.Basic
+import CelerVerif.Generated.CalcConsts
 
 namespace CelerVerif.Calc
 open CelerVerif
@@ -81,7 +84,7 @@ def lerp (xl yl xr yr x : α) : α := (LinInterp.mk' xl yl xr yr).eval x
 /-! ### XsGridData / XsCalculator (= EnergyLossCalculator) -/
 
 /-- `XsGridData::no_scaling()` = `size_type(-1)` (64-bit `size_type` in this build) -/
-def noScaling : Nat := 18446744073709551615
+def noScaling : Nat := Generated.CalcConsts.noScaling
 
 /-- `XsGridData` + the `reals` collection it points into -/
 structure XsGrid (α : Type) where
@@ -233,7 +236,8 @@ def meanEnergyLoss (toIdx : α → Nat) (loss rng : XsGrid α) (linLossLimit ene
     else some eloss
 
 /-- `celeritas::sqrt_tol()` for double -/
-def sqrtTol : α := 1e-6
+def sqrtTol : α :=
+  Num.ofSci Generated.CalcConsts.sqrtTolM true Generated.CalcConsts.sqrtTolE
 
 /-- `PhysicsTrackView::range_to_step(range)`; `rho = min_range`, `alpha = max_step_over_range` -/
 def rangeToStep (rho alpha range : α) : α :=
@@ -243,11 +247,13 @@ def rangeToStep (rho alpha range : α) : α :=
 /-! ### Urban MSC true path ↔ geometrical path -/
 
 /-- `UrbanMscParameters::min_step()` = 1 nm in CGS -/
-def mscMinStep : α := 1e-7
+def mscMinStep : α :=
+  Num.ofSci Generated.CalcConsts.minStepM true Generated.CalcConsts.minStepE
 /-- `UrbanMscParameters::dtrl()` -/
-def mscDtrl : α := 0.05
+def mscDtrl : α := Num.ofSci Generated.CalcConsts.dtrlM true Generated.CalcConsts.dtrlE
 /-- `MscStep::small_step_alpha()` -/
-def smallStepAlpha : α := 0
+def smallStepAlpha : α :=
+  Num.ofSci Generated.CalcConsts.smallStepAlphaM true Generated.CalcConsts.smallStepAlphaE
 
 /-- `std::fmin` (NaN-ignoring; ties return the first argument) -/
 def fmin (a b : α) : α :=
